@@ -486,19 +486,32 @@ class ShardedFileAccessor(neuroglancer_scripts.accessor.Accessor,
             raise ShardedIOError from e
 
     def store_chunk(self, buf, key, chunk_coords, **kwargs):
-        if key not in self.shard_dict:
-            shard_volume_spec, shard_spec = self.get_volume_shard_spec(key)
+        try:
+            if key not in self.shard_dict:
+                shard_volume_spec, shard_spec = (
+                    self.get_volume_shard_spec(key))
 
-            sharded_scale = ShardedScale(base_dir=self.base_dir,
-                                         key=key,
-                                         shard_spec=shard_spec,
-                                         shard_volume_spec=shard_volume_spec,
-                                         **self.kwargs)
-            self.shard_dict[key] = sharded_scale
-        self.shard_dict[key].store_chunk(buf, chunk_coords, **kwargs)
+                sharded_scale = ShardedScale(
+                    base_dir=self.base_dir,
+                    key=key,
+                    shard_spec=shard_spec,
+                    shard_volume_spec=shard_volume_spec,
+                    **self.kwargs)
+                self.shard_dict[key] = sharded_scale
+            self.shard_dict[key].store_chunk(buf, chunk_coords, **kwargs)
+        except BaseException:
+            # The write session is now incomplete. Shard files are written as
+            # a whole, so flushing it (e.g. by the exit handler) would replace
+            # shards that are complete on disk by partial ones.
+            self._store_failed = True
+            raise
 
     def close(self):
         if len(self.shard_dict) == 0:
             return
+        if getattr(self, "_store_failed", False):
+            raise ShardedIOError("A chunk could not be stored: the shards of "
+                                 "this incomplete write session are not "
+                                 "written")
         for scale in self.shard_dict.values():
             scale.close()
